@@ -3,6 +3,7 @@
 //! and writes (a) Coq case files on which the model is evaluated and compared, (b) result_<prop>.json.
 mod c13;
 mod coqw;
+mod dumpfmt;
 mod enumgen;
 mod enumprops;
 mod foldprops;
@@ -28,6 +29,10 @@ fn main() {
     let prop = args[1].clone();
     if prop == "dump-unicode" {
         unicode::dump(&args[2]).expect("dump unicode");
+        return;
+    }
+    if prop == "dump-formats" {
+        dumpfmt::dump(&args[2]).expect("dump formats");
         return;
     }
     let mut o = Opts { seed: 1, n: 400, outdir: "/verif/_build/run".into(), thorough: false, shards: 16, replay: None };
